@@ -388,8 +388,9 @@ Variable lower : str -> str.
 Variable idna : str -> option str.
 
 Definition decode_hostname (mask : N) (host : str) : str + string :=
-  let normalised := if mhas mask M_IS_HOSTNAME_ANCHOR then trim_start_matches (bs "www.") host else host in
-  let lowercase := to_lowercase lower normalised in
+  (* lower-case first, then the leading "www." goes (since /repo 2c775fa: ||WWW.host = ||www.host) *)
+  let lowercase0 := to_lowercase lower host in
+  let lowercase := if mhas mask M_IS_HOSTNAME_ANCHOR then trim_start_matches (bs "www.") lowercase0 else lowercase0 in
   if all_ascii lowercase then inl lowercase
   else match idna lowercase with Some h => inl h | None => inr "PunycodeError"%string end.
 
@@ -442,11 +443,22 @@ Definition strip_stars (pattern : str) (mask : N) (fis : nat) : res (N * nat * n
   lead <- (if Nat.ltb fis fie then r <- slice_from pattern fis ;; Ok (prefixb [c_STAR] r) else Ok false) ;;
   Ok (if lead then mset mask M_IS_LEFT_ANCHOR false else mask, if lead then S fis else fis, fie).
 
+(* lowercase_regex_body: lower-case a /regex/ body except the byte that follows a backslash *)
+Fixpoint lower_regex_esc (escaped : bool) (s : str) : str :=
+  match s with
+  | [] => []
+  | c :: r => if escaped then c :: lower_regex_esc false r
+              else to_lower c :: lower_regex_esc (N.eqb c 92) r
+  end.
+Definition lower_regex_body (s : str) : str := lower_regex_esc false s.
+
 Definition final_filter (pattern : str) (mask : N) (fis fie : nat) : res (N * option str) :=
   if Nat.ltb fis fie
   then f <- slice pattern fis fie ;;
        Ok (mset mask M_IS_REGEX (check_is_regex f),
-           Some (if mhas mask M_MATCH_CASE then f else lower_str f))
+           Some (if mhas mask M_MATCH_CASE then f
+                 else if mhas mask M_IS_COMPLETE_REGEX then lower_regex_body f   (* since /repo 5436c47 *)
+                 else lower_str f))
   else Ok (mask, None).
 
 (* the offset pipeline of NetworkFilter::parse on the pattern: (mask, hostname, filter) *)
